@@ -169,6 +169,13 @@ func dispatchArm(j *ssa.BasicBlock, i int, p *ssa.BasicBlock) (int, bool) {
 			}
 			return false, false
 		}
+		// a condition tested before (`open := !closed; if open {…}; unlock; if !open {…}`): an SSA value does not
+		// change, so what the earlier branch established on the way to this edge still holds
+		if depth == 0 || isNot(v) {
+			if val, ok := condKnownOnEdge(v, p, j); ok {
+				return val, true
+			}
+		}
 		switch x := v.(type) {
 		case *ssa.UnOp:
 			if x.Op == token.NOT && x.Block() == j {
@@ -278,6 +285,56 @@ func dispatchArm(j *ssa.BasicBlock, i int, p *ssa.BasicBlock) (int, bool) {
 		return 0, true
 	}
 	return 1, true
+}
+
+func isNot(v ssa.Value) bool {
+	u, ok := v.(*ssa.UnOp)
+	return ok && u.Op == token.NOT
+}
+
+// condKnownOnEdge: the boolean SSA value v (a branch condition, possibly negated) has a known truth value
+// whenever control passes the edge p -> j, because a branch on the same value dominates p (or p itself
+// branches on it and j is one of its two different successors).  Plain SSA dominance is used: the facts
+// hold on every execution.
+func condKnownOnEdge(v ssa.Value, p, j *ssa.BasicBlock) (bool, bool) {
+	strip := func(c ssa.Value) (ssa.Value, bool) {
+		pol := true
+		for {
+			u, ok := c.(*ssa.UnOp)
+			if !ok || u.Op != token.NOT {
+				return c, pol
+			}
+			c, pol = u.X, !pol
+		}
+	}
+	base, pol := strip(v)
+	if _, isC := base.(*ssa.Const); isC {
+		return false, false
+	}
+	if _, isPhi := base.(*ssa.Phi); isPhi {
+		return false, false // a merged flag is handled by the phi rules, per incoming edge
+	}
+	if iff, ok := p.Instrs[len(p.Instrs)-1].(*ssa.If); ok && len(p.Succs) == 2 && p.Succs[0] != p.Succs[1] {
+		if b2, pol2 := strip(iff.Cond); b2 == base {
+			taken := p.Succs[0] == j // the condition of p holds on this edge
+			return (taken == pol2) == pol, true
+		}
+	}
+	for b := p; b != nil; b = b.Idom() {
+		if len(b.Preds) != 1 {
+			continue
+		}
+		q := b.Preds[0]
+		iff, ok := q.Instrs[len(q.Instrs)-1].(*ssa.If)
+		if !ok || len(q.Succs) != 2 || q.Succs[0] == q.Succs[1] {
+			continue
+		}
+		if b2, pol2 := strip(iff.Cond); b2 == base {
+			taken := q.Succs[0] == b
+			return (taken == pol2) == pol, true
+		}
+	}
+	return false, false
 }
 
 // lowerBoundOf: a lower bound that an integer value has by construction: constants, lengths, unsigned
